@@ -5,6 +5,7 @@ package main
 
 import (
 	"fmt"
+	"os"
 	"go/constant"
 	"go/token"
 	"go/types"
@@ -53,6 +54,7 @@ type Frame struct {
 	callOrd  map[string]int
 	entryAlloc Term
 	up       *Frame
+	isInit   bool
 }
 
 func (vc *VC) newFrame(fn *ssa.Function, depth int) *Frame {
@@ -252,6 +254,9 @@ func (fr *Frame) run(st *State) []Exit {
 				fr.safety(cur, "panic", tFalse, "explicit panic")
 				alive = false
 			default:
+				if os.Getenv("GOVC_DEBUG") == "2" && fr.top {
+					fmt.Fprintln(os.Stderr, "exec", instr.String())
+				}
 				fr.exec(cur, instr)
 			}
 			if !alive {
@@ -415,6 +420,14 @@ func (fr *Frame) exec(st *State, instr ssa.Instruction) {
 		v := fr.val(st, x.Val)
 		v.T = x.Addr.Type().Underlying().(*types.Pointer).Elem()
 		vc.storeAt(st, p.S[0], p.S[1], v)
+		if os.Getenv("GOVC_DEBUG") != "" {
+			if g, ok := x.Addr.(*ssa.Global); ok {
+				fmt.Fprintln(os.Stderr, "store to global", g.Name(), fr.top, fr.isInit, st.pc)
+			}
+		}
+		if g, ok := x.Addr.(*ssa.Global); ok && fr.top && fr.isInit {
+			fr.checkGlobalInvs(st, g)
+		}
 	case *ssa.UnOp:
 		fr.execUnOp(st, x)
 	case *ssa.BinOp:
@@ -702,8 +715,13 @@ func (fr *Frame) valuesEqual(st *State, a, b Val) Term {
 		vc.assumeRaw(tImp(u, tEq(a.S[0], b.S[0])))
 		vc.assumeRaw(tImp(ident, u))
 		return u
-	case *types.Slice, *types.Map, *types.Signature:
-		// only comparable with nil
+	case *types.Slice:
+		// Go code compares slices with nil only; specifications compare headers
+		if b.S[0] == "0" || a.S[0] == "0" {
+			return tEq(a.S[0], b.S[0])
+		}
+		return tAnd(tEq(a.S[0], b.S[0]), tEq(a.S[1], b.S[1]), tEq(a.S[2], b.S[2]))
+	case *types.Map, *types.Signature:
 		return tEq(a.S[0], b.S[0])
 	}
 	var cs []Term
@@ -1045,3 +1063,23 @@ func (fr *Frame) runDefers(st *State) {
 }
 
 var _ = strings.Contains
+
+// checkGlobalInvs: in a package initializer, every global invariant that
+// mentions g must hold right after a store to g.
+func (fr *Frame) checkGlobalInvs(st *State, g *ssa.Global) {
+	vc := fr.vc
+	for _, gi := range vc.p.globalInvs {
+		if fr.fn.Pkg == nil || fr.fn.Pkg.Pkg.Name() != gi.Pkg {
+			continue
+		}
+		names := map[string]bool{}
+		globalsIn(gi.Clause.Expr, names)
+		if !names[g.Name()] {
+			continue
+		}
+		env := fr.specEnv(st, nil)
+		fr.callOrd["ginv:"+gi.Clause.Label]++
+		name := fmt.Sprintf("%s/global-invariant[%s]@store[%s#%d]", vc.fnKey, gi.Clause.Label, g.Name(), fr.callOrd["ginv:"+gi.Clause.Label])
+		vc.oblige(st, name, "ensures", env.evalBool(gi.Clause.Expr), gi.Clause.Text)
+	}
+}
